@@ -1,4 +1,5 @@
 """C13 — replies are classified by their status words; bad replies cannot pass or crash (E3 + byte-fault enumeration)."""
+import itertools
 import struct
 
 from vmc.core.report import Report
@@ -361,12 +362,13 @@ def run_lifecycle(rep, tier):
             # forward close refused: close() must not raise anything foreign and the driver ends not connected
             wd.t.reply_hook = None
             wd.close()
-    for es in ENCAP:
+    # a refusing target may leave anything in the session-handle field and may or may not echo the request body
+    for es, handle, echo in itertools.product(ENCAP, (0, 0x1234, 0x80000001, 0xFFFFFFFF), (True, False)):
         wd = World("cip")
 
-        def hook(fr, reply, es=es):
+        def hook(fr, reply, es=es, handle=handle, echo=echo):
             if fr.command == W.CMD_REGISTER:
-                return W.build_frame(fr.command, 0, fr.body, status=es, context=fr.context)
+                return W.build_frame(fr.command, handle, fr.body if echo else b"", status=es, context=fr.context)
             return reply
         wd.t.reply_hook = hook
         out = call(wd.d.open)
@@ -374,8 +376,8 @@ def run_lifecycle(rep, tier):
         if out[0] not in ("ok", "pycomm"):
             probs.append(("foreign-exception", f"{out!r:.120}"))
         elif out == ("ok", True):
-            probs.append(("error-accepted", f"RegisterSession answered with encapsulation status {es:#x} but open() returned True"))
-        rep.case(("register", es), outcome="ok" if not probs else probs[0][0])
+            probs.append(("error-accepted", f"RegisterSession answered with encapsulation status {es:#x} (session field {handle:#x}, body {'echoed' if echo else 'empty'}) but open() returned True"))
+        rep.case(("register", es, handle, echo), outcome="ok" if not probs else probs[0][0])
         for clause, detail in probs:
             rep.violation(f"register-session/{clause}", detail, {"kind": "lifecycle", "what": "register", "status": es, "ext": []})
         wd.close()
